@@ -414,6 +414,49 @@ func FamClosures[T any](c Codec[T], stream bool, chunk int, seed int64, n int) S
 	// the late invocation is an application-level error: the link stays healthy
 	v2, err2 := p.ra.EchoInt(ctx, 497, 42)
 	rec.Calls = append(rec.Calls, SysCall{Tag: 497, From: "A", Method: "EchoInt", Arg: "42", Ret: canon(v2), Err: errText(err2), Done: true, Extra: "probe"})
+	// ... and closures still work in both directions afterwards (nothing is left locked)
+	for k, rem := range []sysRemote{p.ra, p.rb} {
+		pctx, pcancel := context.WithTimeout(ctx, 3*time.Second)
+		v3, err3 := rem.Iter(pctx, 496-k, 1, func(ctx context.Context, i int, s string, xs []int, b bool) (string, error) { return "p", nil })
+		pcancel()
+		rec.Calls = append(rec.Calls, SysCall{Tag: 496 - k, From: []string{"A", "B"}[k], Method: "IterProbe", Ret: v3, Err: errText(err3), Done: true})
+	}
+	// a call whose context is cancelled while its closure is still running returns promptly; the
+	// closure finishes later without harm
+	{
+		cctx, ccancel := context.WithCancel(ctx)
+		started, release := make(chan struct{}), make(chan struct{})
+		done := make(chan SysCall, 1)
+		go func() {
+			v, err := p.ra.Iter(cctx, 494, 1, func(ctx context.Context, i int, s string, xs []int, b bool) (string, error) {
+				close(started)
+				<-release
+				return "late", nil
+			})
+			done <- SysCall{Tag: 494, From: "A", Method: "IterCancelled", Ret: v, Err: errText(err), Done: true}
+		}()
+		select {
+		case <-started:
+			ccancel()
+			select {
+			case c := <-done:
+				rec.Calls = append(rec.Calls, c)
+			case <-time.After(3 * time.Second):
+				rec.Calls = append(rec.Calls, SysCall{Tag: 494, From: "A", Method: "IterCancelled", Err: "DID-NOT-RETURN while its closure was running"})
+				rec.Hang = true
+			}
+		case <-time.After(3 * time.Second):
+			rec.Notes = append(rec.Notes, "closure of the to-be-cancelled call never started")
+			ccancel()
+		}
+		// while that closure is still stalled, an independent closure-carrying call completes
+		pctx, pcancel := context.WithTimeout(ctx, 3*time.Second)
+		v4, err4 := p.ra.Iter(pctx, 493, 2, func(ctx context.Context, i int, s string, xs []int, b bool) (string, error) { return "q", nil })
+		pcancel()
+		rec.Calls = append(rec.Calls, SysCall{Tag: 493, From: "A", Method: "IterWhileStalled", Ret: v4, Err: errText(err4), Done: true})
+		close(release)
+		time.Sleep(2 * time.Millisecond)
+	}
 	rec.LinkA, rec.LinkB = p.close()
 	rec.Events = p.w.Events()
 	return rec
@@ -440,7 +483,7 @@ func FamNest[T any](c Codec[T], stream bool, chunk int, seed int64) SysRecord {
 		rec.Notes = append(rec.Notes, err.Error())
 		return rec
 	}
-	ctx, cancel := context.WithTimeout(context.Background(), 15*time.Second)
+	ctx, cancel := context.WithTimeout(context.Background(), 25*time.Second)
 	defer cancel()
 	var wg sync.WaitGroup
 	var mu sync.Mutex
@@ -479,6 +522,9 @@ func FamNest[T any](c Codec[T], stream bool, chunk int, seed int64) SysRecord {
 	if r.Intn(6) == 0 {
 		depth = 30 + r.Intn(40)
 	}
+	if seed%16 == 5 {
+		depth = 1100 + r.Intn(200) // far beyond any fixed pool of handlers
+	}
 	var inner sync.WaitGroup
 	for _, side := range []struct {
 		from string
@@ -498,7 +544,7 @@ func FamNest[T any](c Codec[T], stream bool, chunk int, seed int64) SysRecord {
 			add(SysCall{Tag: 610, From: side.from, Method: "Iter", Arg: "3", Ret: v, Err: errText(err), Done: true})
 		}()
 	}
-	if !waitAll(&inner, 10*time.Second) {
+	if !waitAll(&inner, 15*time.Second) {
 		rec.Hang = true
 		rec.Notes = append(rec.Notes, fmt.Sprintf("calls issued while %d handlers were stalled did not complete (depth %d)", 2*k, depth))
 	}
@@ -567,6 +613,45 @@ func FamHub[T any](c Codec[T], seed int64) SysRecord {
 			}()
 		}
 	}
+	// ... and a closure-carrying call on every link whose closure is still running
+	cbStarted := make([]chan struct{}, n)
+	for i, s := range spokes {
+		cbStarted[i] = make(chan struct{})
+		for _, rem := range s.Remotes() {
+			wg.Add(1)
+			go func() {
+				defer wg.Done()
+				v, err := rem.Iter(ctx, 780+i, 1, func(ctx context.Context, k int, st string, xs []int, b bool) (string, error) {
+					close(cbStarted[i])
+					<-w.gate(790 + i)
+					return "h", nil
+				})
+				add(SysCall{Tag: 780 + i, From: s.Name, Method: "IterAcross", Ret: v, Err: errText(err), Done: true})
+			}()
+		}
+	}
+	// the hub passes a closure to every spoke; the spokes invoke it only after the failure below
+	for id, rem := range hub.Remotes() {
+		i := -1
+		for k := range spokes {
+			if spokeHubID[k] == id {
+				i = k
+			}
+		}
+		wg.Add(1)
+		go func() {
+			defer wg.Done()
+			v, err := rem.Delayed(ctx, 7100+i, func(ctx context.Context, x int) (int, error) { return x + 1, nil })
+			add(SysCall{Tag: 7100 + i, From: "H", Method: "DelayedAcross", Ret: canon(v), Err: errText(err), Done: true})
+		}()
+	}
+	for i := range spokes {
+		select {
+		case <-cbStarted[i]:
+		case <-time.After(5 * time.Second):
+			rec.Notes = append(rec.Notes, fmt.Sprintf("closure of spoke %d never started", i))
+		}
+	}
 	waitUntil(func() bool {
 		k := 0
 		for _, e := range w.Events() {
@@ -598,8 +683,37 @@ func FamHub[T any](c Codec[T], seed int64) SysRecord {
 			add(SysCall{Tag: 760 + i, From: s.Name, Method: "EchoInt", Arg: fmt.Sprint(i), Ret: canon(v), Err: errText(err), Done: true, Extra: "survivor"})
 		}
 	}
+	// a new link comes up after the failure: fresh identity, routed to the new peer, survivors unaffected
+	fresh := NewSysNode[T](w, "SN")
+	freshLink := Connect(w, hub, fresh, c, false, 0, seed+99)
+	links = append(links, freshLink)
+	if WaitRemotes(fresh, 1) && waitUntil(func() bool { return len(hub.Remotes()) == n }, 3*time.Second) {
+		for _, rem := range fresh.Remotes() {
+			id, err := rem.WhoAmI(ctx, 799)
+			add(SysCall{Tag: 799, From: "SN", Method: "WhoAmINew", Ret: id, Err: errText(err), Done: true, Extra: strings.Join(spokeHubID, ",")})
+			if hr, ok := hub.Remotes()[id]; ok {
+				v, err := hr.EchoInt(ctx, 798, 798)
+				add(SysCall{Tag: 798, From: "H", Method: "EchoIntNew", Arg: "798", Ret: canon(v), Err: errText(err), Done: true})
+			} else {
+				rec.Notes = append(rec.Notes, "the id the new link sees in handler contexts is not enumerated by the hub")
+			}
+		}
+		for i, s := range spokes {
+			if i == victim {
+				continue
+			}
+			for _, rem := range s.Remotes() {
+				id, err := rem.WhoAmI(ctx, 770+i)
+				add(SysCall{Tag: 770 + i, From: s.Name, Method: "WhoAmIAgain", Ret: id, Err: errText(err), Done: true, Extra: spokeHubID[i]})
+			}
+		}
+	} else {
+		rec.Notes = append(rec.Notes, fmt.Sprintf("after one link failed and a new one connected the hub enumerates %d remotes, expected %d", len(hub.Remotes()), n))
+	}
 	for i := 0; i < n; i++ {
 		close(w.gate(740 + i))
+		close(w.gate(790 + i))
+		close(w.gate(7100 + i))
 	}
 	if !waitAll(&wg, 10*time.Second) {
 		rec.Hang = true
